@@ -214,6 +214,39 @@ func genC14(g *Gen) {
 		join(vs, w, "join-rand")
 	}
 
+	// (2b) Join/Getw long lists: packed length 31..33, 64 and 100 words, so that an index or a position that is
+	// narrowed / wrapped somewhere (a 1024- or 2048-bit horizon) is seen; every element distinct in its low bits
+	for _, w := range c14Widths {
+		per := 64 / w
+		for _, nwords := range []int{31, 32, 33, 64, 100} {
+			reps := g.N(1, 4)
+			for rep := 0; rep < reps; rep++ {
+				n := nwords*per + g.R.Pick(-1, 0, 1)
+				vs := make([]uint64, n)
+				for i := range vs {
+					vs[i] = uint64(i+1)*0x9e3779b97f4a7c15 ^ g.R.U64()<<48
+				}
+				join(vs, w, "join-long")
+			}
+		}
+	}
+
+	// (2c) Join/Getw huge: packed length just beyond 2^15 and 2^16 bits (a position narrowed to 16 bits)
+	hw := []int{8, 64}
+	if g.Thorough {
+		hw = c14Widths
+	}
+	for _, w := range hw {
+		for _, bitsN := range []int{1<<15 + 192, 1<<16 + 192} {
+			n := bitsN / w
+			vs := make([]uint64, n)
+			for i := range vs {
+				vs[i] = uint64(i+1) * 0x9e3779b97f4a7c15
+			}
+			join(vs, w, "join-huge")
+		}
+	}
+
 	// (3) Slice exhaustive: all (from, to) over bitmaps of 0..3 words
 	exh := [][]uint64{
 		{},
@@ -239,6 +272,54 @@ func genC14(g *Gen) {
 		}
 	}
 	g.Exhaust = append(g.Exhaust, fmt.Sprintf("Slice: all (from,to) with 0<=from<=to<=64n over %d bitmaps of 0..3 words (all-ones, {bit0,bit63}, random)", len(exh)))
+
+	// (3b) Slice over long bitmaps (30..100 words) with sparse words (many all-zero words between the 1-bits):
+	// ranges that start / end deep inside, cover > 32 words, or lie wholly beyond word 32
+	nl := g.N(40, 600)
+	for k := 0; k < nl; k++ {
+		nw := g.R.Range(30, 100)
+		ws := make([]uint64, nw)
+		for i := range ws {
+			switch g.R.Intn(4) {
+			case 0:
+				ws[i] = g.R.U64()
+			case 1:
+				ws[i] = g.R.Word()
+			}
+		}
+		n := 64 * nw
+		for q := 0; q < 4; q++ {
+			from := g.R.Intn(n + 1)
+			if q == 0 {
+				from = g.R.Intn(130)
+			}
+			to := g.R.Range(from, n)
+			if q == 1 {
+				to = minInt(n, from+g.R.Intn(130))
+			}
+			slice(ws, from, to, "slice-long")
+		}
+	}
+
+	// (3c) Slice over huge bitmaps (513, 1025, 2049 words): short ranges around and beyond bit 2^15 / 2^16 / 2^17
+	// (from, to or to-from narrowed to 16 bits), one long range each
+	for _, nw := range []int{513, 1025, 2049} {
+		ws := make([]uint64, nw)
+		for i := range ws {
+			if i%7 == 0 || i >= nw-3 {
+				ws[i] = g.R.U64() | 1 | 1<<63
+			}
+		}
+		n := 64 * nw
+		for q := 0; q < g.N(4, 30); q++ {
+			from := n - 192 + g.R.Intn(130)
+			to := g.R.Range(from, n)
+			slice(ws, from, to, "slice-huge")
+			from = (n-64)/2 + g.R.Intn(70) // around the middle: 2^14, 2^15, 2^16
+			slice(ws, from, minInt(n, from+g.R.Intn(200)), "slice-huge")
+		}
+		slice(ws, g.R.Intn(64), n-g.R.Intn(64), "slice-huge")
+	}
 
 	// (4) Slice random: 1..20 words, ends on / next to word boundaries, lengths 64k-1, 64k, 64k+1
 	ns := g.N(1500, 40000)
@@ -280,4 +361,7 @@ func genC14(g *Gen) {
 			slice(ws, from, to, "slice-rand")
 		}
 	}
+
+	genC14Widen(g) // harness/c14w.go: mask tables, Getw on any bitmap, split + Join, ToArray(Slice)
+	genC14Fmt(g)   // harness/c14f.go: bitmap.Fmt
 }
